@@ -30,14 +30,16 @@ func vfStagePresent(n *Entry, path string) {
 
 func VerifC08Create() {
 	w := vfNewWorld(vParam("faults", 0), false)
-	w.crossDevice = vBool()
-	if w.crossDevice {
-		vNote("staging area on another device")
-	}
-
 	// what the plan creates: a file, a symbolic link, or a directory with an
 	// optional child (file, link or directory)
 	nw := vtGenNode(1, []string{"a"}, 0, false)
+	if vtHasFile(nw) {
+		// only staged files are moved: same device or another one
+		w.crossDevice = vBool()
+		if w.crossDevice {
+			vNote("staging area on another device")
+		}
+	}
 
 	// where: the root itself, a child of the root, a grandchild
 	where := vChoose(3)
@@ -94,7 +96,7 @@ func VerifC08Create() {
 	if u == nil {
 		if len(results) == 1 && vtDeepEqual(results[0], nw) {
 			vCover("created")
-			if w.crossDevice && vtHasFile(nw) {
+			if w.crossDevice {
 				vCover("created-across-devices")
 			}
 		}
